@@ -27,6 +27,7 @@ CONFIGS = {
     'eio-both': (['--features', 'eio,eio-async'], 'std + embedded-io + embedded-io-async'),
     'nodefault': (['--no-default-features'], 'circular-buffer without std and alloc'),
     'alloc': (['--no-default-features', '--features', 'alloc'], 'circular-buffer with alloc only'),
+    'plain': (['--features', 'plain'], 'default features; element tokens without drop glue'),
 }
 
 
@@ -334,7 +335,7 @@ def check(prop, tier):
     if spec.get('differential'):
         differential(prop, tier, spec, parts, violations, broken, undecided, notes)
     else:
-        for config in spec.get('e1_configs', []):
+        for config in spec.get('e1_configs', []) + (spec.get('e1_configs_thorough', []) if tier == 'thorough' else []):
             r = run_e1(prop, tier, config, spec, parts, broken)
             if r is None:
                 continue
